@@ -171,6 +171,23 @@ func (a *Analyzer) CheckRule(clause ast.Clause) error {
 						boundVars[p.Interval.End.Variable] = true
 					}
 				}
+			case ast.Ineq:
+				// Evaluation proceeds left-to-right: both sides need a value here.
+				ineqVars := make(map[ast.Variable]bool)
+				ast.AddVars(p, ineqVars)
+				for v := range ineqVars {
+					hasValue := boundVars[v]
+					if x := uf.Get(v); !hasValue && x != nil {
+						if _, isconst := x.(ast.Constant); isconst {
+							hasValue = true
+						} else if u, isvar := x.(ast.Variable); isvar && boundVars[u] {
+							hasValue = true
+						}
+					}
+					if !hasValue {
+						return fmt.Errorf("variable %v in %v will not have a value yet; move the subgoal to the right", v, p)
+					}
+				}
 			case ast.Eq:
 				if _, isconst := p.Left.(ast.Constant); isconst {
 					if v, isvar := p.Right.(ast.Variable); isvar {
